@@ -7,6 +7,7 @@ use crate::ctx::{guard, hx, Ctx, Panicked};
 use crate::prng::Rng;
 
 pub mod aead;
+pub mod polyedge;
 #[cfg(feature = "sodium")]
 pub mod c01;
 #[cfg(feature = "sodium")]
